@@ -85,7 +85,8 @@ def _eval_table(case):
         for k in range(1, n + 1):
             ref = rg.get((n, k), mp.mpf(0))
             dev = abs(mp.mpf(float(up[n, k])) - ref) / max(abs(ref), 1)
-            mx_log = max(mx_log, float(dev))
+            if dev <= mp.mpf("1e-12"):
+                mx_log = max(mx_log, float(dev))
             if dev > mp.mpf("1e-12"):
                 res.fail(
                     f"couplings.compute_matching_coeffs_up/{scheme}/log/c{n}{k}",
@@ -107,7 +108,7 @@ def _eval_table(case):
                     f"{where}: down[{n},{k}] = {down[n, k]!r} but the perturbative inverse of the up table has "
                     f"{mp.nstr(ref, 15)}",
                 )
-    res.info = {"max_rel_dev_const": mx_const, "max_rel_dev_log": mx_log, "max_rel_dev_inverse": mx_inv}
+    res.info = {"max_rel_dev_const": mx_const, "max_rel_dev_log_passing": mx_log, "max_rel_dev_inverse": mx_inv}
     res.outcome = "table"
     return res
 
